@@ -61,8 +61,20 @@ Definition check_case (c : list (Q * Q) * list nat * list (Q * Q) * list nat * r
         out.append({'x': [[1.0, 1.0]], 'y': [[1.0, 1.0]], 'xl': 0, 'yl': 3})
         return out
 
+    def late_near_coincident(self, rng):
+        """two contiguous annotations late in a track whose inner boundaries are distinct but closer than any relative float tolerance
+        (2**-10 .. 2**-16 s apart at t ~ 200 .. 4000 s): all values are dyadic, so exact"""
+        base = float(rng.choice([200, 1000, 2000, 4000]))
+        eps = 2.0 ** -rng.choice([10, 12, 14, 16])
+        k = rng.choice([2, 3])
+        xs = [base + 4.0 * i for i in range(k + 1)]
+        ys = [xs[0]] + [v + rng.choice([eps, -eps]) for v in xs[1:-1]] + [xs[-1]]
+        x = [[xs[i], xs[i + 1]] for i in range(k)]
+        y = [[ys[i], ys[i + 1]] for i in range(k)]
+        return {'x': x, 'y': y, 'xl': k, 'yl': k}
+
     def gen(self, rng, n):
-        cases = []
+        cases = [self.late_near_coincident(rng) for _ in range(max(10, n // 20))]
         for t in range(n):
             den = rng.choice([4, 8, 16, 32, 64])
             lo = rng.randrange(0, 3 * den)
